@@ -8,6 +8,9 @@ from common import D, REPO, langdata, rng
 from props.base import decide, expect_str
 
 ORDERS = ["DMY", "DYM", "MDY", "MYD", "YDM", "YMD"]
+PREFS = [{"PREFER_DATES_FROM": "future"}, {"PREFER_DATES_FROM": "past"}, {"PREFER_DATES_FROM": "future", "PREFER_DAY_OF_MONTH": "last"},
+         {"PREFER_DATES_FROM": "past", "PREFER_MONTH_OF_YEAR": "first"}, {"PREFER_DAY_OF_MONTH": "first", "PREFER_MONTH_OF_YEAR": "last"},
+         {"STRICT_PARSING": True}, {"STRICT_PARSING": True, "PREFER_DATES_FROM": "future"}, {"REQUIRE_PARTS": ["day", "month", "year"], "PREFER_DATES_FROM": "future"}]
 
 
 def negative_offset_spellings():
@@ -47,8 +50,17 @@ def run(ctx):
                         s += " %02d:%02d" % (hh, mi)
                         tm = (hh, mi)
                     exp = D(y, m, d, *(tm or (0, 0)))
-                    cases.append({"s": s, "langs": ["en"], "settings": {"DATE_ORDER": order, "RELATIVE_BASE": base, "TIMEZONE": "UTC"},
-                                  "expect": expect_str(exp), "stratum": "explicit/%s/%s%s" % (order, {"-": "dash", "/": "slash", ".": "dot", " ": "space"}[sep], "+time" if tm else ""),
+                    st = {"DATE_ORDER": order, "RELATIVE_BASE": base, "TIMEZONE": "UTC"}
+                    # C07_order_decides holds for every preference and strictness: all three fields are written, so none of them may move a
+                    # field.  Small zero-padded years always get one (a four-digit token must never be treated as a two-digit year).
+                    pref = ""
+                    recorded = sep == "-" and order.endswith("Y") and ("%04d" % y) in neg and not tm   # the recorded finding keeps its exact shape
+                    if not recorded and (y < 100 or R.random() < 0.25):
+                        k = R.choice(PREFS)
+                        st.update(k)
+                        pref = "+pref"
+                    cases.append({"s": s, "langs": ["en"], "settings": st,
+                                  "expect": expect_str(exp), "stratum": "explicit/%s/%s%s%s" % (order, {"-": "dash", "/": "slash", ".": "dot", " ": "space"}[sep], "+time" if tm else "", pref),
                                   "_sep": sep, "_order": order, "_y": "%04d" % y, "_time": bool(tm)})
     # the locale's own order
     ld = langdata()
